@@ -1378,11 +1378,15 @@ type c01Sys struct {
 	api    bool     // principals created through the admin API (they own sequences)
 	gaps   []uint64 // sequences reserved and never used
 	nbump  int
+	named  bool // the database serves a NAMED collection (collection id != 0)
+	gate     *c01Gate // in front of the real DocChanged: deduplicates held mutations as the server's feed does
+	recCache *c01RecCache
+	impl     *channelCacheImpl
 }
 
 func c01NewSys(t *testing.T, rec *vRecorder, cfg string, principalAPI bool) *c01Sys {
 	co := DefaultCacheOptions()
-	lowseq := false
+	lowseq, named := false, false
 	for _, opt := range strings.Split(cfg, "+") {
 		switch opt {
 		case "maxlen1":
@@ -1399,13 +1403,22 @@ func c01NewSys(t *testing.T, rec *vRecorder, cfg string, principalAPI bool) *c01
 		case "lowseq":
 			co.CachePendingSeqMaxNum = 0
 			lowseq = true
+		case "named":
+			named = true
 		}
 	}
-	db, ctx := SetupTestDBWithOptions(t, DatabaseContextOptions{AllowConflicts: base.Ptr(true), CacheOptions: &co,
-		Scopes: GetScopesOptionsDefaultCollectionOnly(t)})
+	dbo := DatabaseContextOptions{AllowConflicts: base.Ptr(true), CacheOptions: &co, Scopes: GetScopesOptionsDefaultCollectionOnly(t)}
+	if named {
+		dbo.Scopes = nil // SetupTestDBForBucketWithOptions picks a named collection of the test bucket
+	}
+	db, ctx := SetupTestDBWithOptions(t, dbo)
 	col, ctx := GetSingleDatabaseCollectionWithUser(ctx, t, db)
 	col.ChannelMapper = channels.NewChannelMapper(ctx, channels.DocChannelsSyncFunction, db.Options.JavascriptTimeout)
-	s := &c01Sys{t: t, rec: rec, db: db, ctx: ctx, col: col, docs: map[uint64]*c01Doc{}, revs: map[string]uint64{}, cfg: cfg, failed: map[string]bool{}, lowseq: lowseq, api: principalAPI}
+	s := &c01Sys{t: t, rec: rec, db: db, ctx: ctx, col: col, docs: map[uint64]*c01Doc{}, revs: map[string]uint64{}, cfg: cfg, failed: map[string]bool{}, lowseq: lowseq, api: principalAPI, named: named}
+	if named && col.GetCollectionID() == base.DefaultCollectionID {
+		t.Fatalf("c01: asked for a named collection, got the default one")
+	}
+	s.installGate()
 	a := db.Authenticator(ctx)
 	for i, chs := range [][]string{{"A"}, {"A", "B"}, {"*"}} {
 		name := fmt.Sprintf("u%d", i+1)
@@ -1418,11 +1431,24 @@ func c01NewSys(t *testing.T, rec *vRecorder, cfg string, principalAPI bool) *c01
 		if principalAPI {
 			// the admin API path: allocates a sequence for the principal document, grants at that sequence
 			pw := "letmein"
-			if _, _, err := db.UpdatePrincipal(ctx, &auth.PrincipalConfig{Name: &name, Password: &pw, ExplicitChannels: set}, true, true); err != nil {
+			pc := &auth.PrincipalConfig{Name: &name, Password: &pw, ExplicitChannels: set}
+			if named {
+				pc = &auth.PrincipalConfig{Name: &name, Password: &pw}
+				pc.SetExplicitChannels(col.ScopeName, col.Name, chs...)
+			}
+			if _, _, err := db.UpdatePrincipal(ctx, pc, true, true); err != nil {
 				t.Fatalf("UpdatePrincipal: %v", err)
 			}
 		} else {
-			u, err := a.NewUser(name, "letmein", set)
+			var u auth.User
+			var err error
+			if named {
+				if u, err = a.NewUser(name, "letmein", nil); err == nil {
+					u.SetCollectionExplicitChannels(col.ScopeName, col.Name, channels.AtSequence(set, 1), 0)
+				}
+			} else {
+				u, err = a.NewUser(name, "letmein", set)
+			}
 			if err != nil {
 				t.Fatalf("NewUser: %v", err)
 			}
@@ -1971,6 +1997,8 @@ type c01SysDesc struct {
 
 func (s *c01Sys) checkpoint(r *vRand, phase string, reqs []c01Req, memo map[string][]c01Row) {
 	s.db.WaitForPendingChanges(s.t)
+	s.systemCacheInv(phase + "/before-requests")
+	defer s.systemCacheInv(phase + "/after-requests")
 	low := s.low()
 	if low != 0 {
 		s.rec.Err("checkpoint-with-low-sequence")
@@ -2159,7 +2187,11 @@ func c01Scenario(t *testing.T, rec *vRecorder, r *vRand, cfg string, principalAP
 	}
 	defer s.close()
 	for i := 0; i < writes; i++ {
-		s.write(r, 1+uint64(r.Intn(4)))
+		if r.Chance(30) {
+			s.rapid(r, 1+uint64(r.Intn(4))) // 2-3 updates of one document, delivered as ONE deduplicated mutation
+		} else {
+			s.write(r, 1+uint64(r.Intn(4)))
+		}
 		if principalAPI && len(s.hist) > 0 && r.Chance(15) {
 			s.bumpUser(r.Intn(len(s.users))) // the user's own row moves in between the document rows
 		}
@@ -2179,14 +2211,15 @@ func c01Scenario(t *testing.T, rec *vRecorder, r *vRand, cfg string, principalAP
 		}
 	}
 	s.checkpoint(r, "end-flushed", sub, memo)
+	s.dedupCheck()
 	c01SysBypass += s.db.DbStats.Cache().ChannelCacheBypassCount.Value()
 	rec.Size(fmt.Sprintf("history-len-%02d", (len(s.hist)+4)/5*5))
 }
 
 func c01System(t *testing.T, rec *vRecorder) {
 	r := vNewRand(vSeed()*7368787 + 5)
-	cfgs := []string{"default", "maxlen1", "qlimit2", "bypass0", "lowseq", "maxlen1+qlimit3", "bypass1+qlimit2", "lowseq+maxlen1+qlimit2", "bypass0+lowseq+qlimit3", "qlimit2+bypass0"}
-	n := vBudget(10, 60)
+	cfgs := []string{"default", "named", "maxlen1+named", "qlimit2", "bypass0", "lowseq+named", "maxlen1+qlimit3", "bypass1+qlimit2+named", "lowseq+maxlen1+qlimit2", "bypass0+lowseq+qlimit3", "qlimit2+bypass0+named", "lowseq"}
+	n := vBudget(12, 72)
 	for i := 0; i < n; i++ {
 		c01Scenario(t, rec, r, cfgs[i%len(cfgs)], (i/2+i)%2 == 1, 8+r.Intn(9))
 	}
